@@ -55,8 +55,12 @@ def build_impl(sc0, sid):
         imports.append('"m/gobar"')
     if qual == "selfname":
         imports.append('"m/e"')
+    if sc.get("shadow"):
+        imports.append('xshadow "m/x/MODSELF/d"')
     if imports:
-        u += ["import ("] + ["\t" + i for i in sorted(set(imports))] + [")", ""]
+        u += ["import ("] + ["\t" + i for i in sorted(set(imports), key=lambda x: x.split('"')[1])] + [")", ""]
+    if sc.get("shadow"):
+        u += ["var _ xshadow.N", ""]
     if '"m/d"' in imports:
         u += ["var _ d.N", ""]
     if qual == "alias":
@@ -106,6 +110,8 @@ def build_impl(sc0, sid):
         pkgs.append({"path": "m/gobar", "name": "bar", "files": [{"name": "gobar/bar.go", "src": "\n".join(bar) + "\n"}]})
     if qual == "selfname":
         pkgs.append({"path": "m/e", "name": "e", "files": [{"name": "e/e.go", "src": "package e\n\ntype E struct{}\n"}]})
+    if sc.get("shadow"):
+        pkgs.append({"path": "m/x/MODSELF/d", "name": "d", "files": [{"name": "x/MODSELF/d/d.go", "src": "package d\n\ntype N struct{}\n\n// I is another contract with the same name.\ntype I interface {\n\tOther()\n}\n"}]})
     ufiles = [{"name": "u/u.go", "src": "\n".join(u) + "\n"}]
     if sc.get("sib") == "binds":
         # an earlier file of the package binds the qualifier's name to a package without I
